@@ -119,6 +119,31 @@ func c14Scenarios(tier string) []*core.Scenario {
 				}
 			}})
 	}
+	equDefs := "FOO EQU 16\nBASE EQU 0x00100000\nSMALL EQU 3\n"
+	equStmts := []string{"MOV AX,FOO+1", "MOV BX,FOO", "DW FOO-1,FOO", "MOV CX,[BX+FOO]", "ADD DX,FOO*2", "DB FOO", "MOV EDI,BASE+512", "DD BASE", "MOV AL,FOO%SMALL", "DB SMALL+SMALL,SMALL",
+		"MOV ESI,BASE", "SUB CX,FOO-SMALL", "MOV BYTE [FOO],SMALL", "DD BASE/FOO,BASE-1", "RESB SMALL", "MOV SI,SMALL*FOO+1"}
+	scs = append(scs, &core.Scenario{
+		Name: "pairs_using_equ", Bound: -1,
+		Rule:   "all ordered pairs of 16 statements that use three EQU names (as first term of a sum, first factor of a product, alone, inside a memory operand): with the definitions in front, out(A;B) must equal out(A)||out(B); x BITS",
+		Bounds: map[string]any{"statements": len(equStmts)},
+		Build: func(c *core.Chooser) *core.Case {
+			mode := []int{16, 32}[c.Pick("mode", 2)]
+			a := equStmts[c.Pick("a", len(equStmts))]
+			b := equStmts[c.Pick("b", len(equStmts))]
+			pr := func(st []string) string {
+				x := c14Prog(mode, st)
+				if mode == 32 {
+					return strings.Replace(x, "[BITS 32]\n", "[BITS 32]\n"+equDefs, 1)
+				}
+				return equDefs + x
+			}
+			return &core.Case{
+				Key:  fmt.Sprintf("BITS %d|EQUs|%s ; %s", mode, a, b),
+				Feat: feat("mode", fmt.Sprint(mode), "a", a, "b", b),
+				Srcs: []string{pr([]string{a, b}), pr([]string{a}), pr([]string{b}), pr(nil)},
+				Judge: c14Judge(2),
+			}
+		}})
 	// single insertions / deletions in longer programs
 	long := [][]string{
 		{"MOV AX,0", "MOV SS,AX", "MOV SP,0x7c00", "MOV DS,AX", "MOV ES,AX", "MOV SI,0x7c50", "MOV AL,[SI]", "ADD SI,1", "CMP AL,0", "MOV AH,0x0e", "MOV BX,15", "INT 0x10", "HLT"},
